@@ -75,10 +75,10 @@ def decide(args):
     obs = obligations(k, B)
     name, term = obs[idx]
     goal = pre(B) + [z3.Not(term)]
-    st, model, dt = solve.solve_z3(goal, (N,), timeout_s)
+    st, model, dt = solve.solve_cvc5(goal, ('n',), timeout_s)
     q = 1
     if st not in ('sat', 'unsat'):
-        st, model, dt2 = solve.solve_cvc5(goal, ('n',), timeout_s)
+        st, model, dt2 = solve.solve_z3(goal, (N,), timeout_s)
         dt += dt2
         q += 1
     n = None
@@ -87,7 +87,7 @@ def decide(args):
     return dict(k=k, name=name, status=st, n=n, solver_s=dt, queries=q)
 
 
-def run(K, B, workers=16, timeout_s=90):
+def run(K, B, workers=16, timeout_s=300):
     import multiprocessing as mp
     t0 = time.time()
     args = []
